@@ -22,6 +22,16 @@ structure Fn where
   callees : List Nat   -- indices (into the table) of program functions called or whose address is taken
   exts    : List Nat   -- external (libc/libm) functions called
 
+/-- what a public function lets escape to its caller (points-to summary of tools/footprint.py; `fresh` = only memory allocated
+during the call, from which neither the caller's arguments nor a library object can be reached) -/
+structure Escape where
+  fn         : Nat     -- index into the table
+  name       : Nat     -- encoded name
+  ptrRet     : Bool    -- the return type is a pointer
+  retFresh   : Bool    -- the returned pointer and every heap block reachable from it are fresh
+  outFresh   : Bool    -- everything stored through a parameter (error slot, out-parameter, array handed in) is fresh
+  constWrite : Bool    -- the function writes through a parameter declared `const T *`
+
 /-- one `setlocale(category, arg)` call of a function, in source order -/
 inductive LocaleOp where
   | query    (cat : Nat)              -- setlocale(cat, NULL)
